@@ -39,6 +39,41 @@ claim('C08', 'Coq refutation witness (vm_compute + inversion) + in-Coq classific
       '(partial: classification is per observed pair).',
       'DESIGN.md sec. 3 C08')
 
+claim('C06', 'Coq refinement proof (file/dict/redis bookkeeping refine a finite map for all operation sequences; framing round-trip under codec hypotheses) + differential evaluation of the model in coqc on operation sequences run on the real stores',
+      'Theorems (Props/C06.v): for EVERY operation sequence (dump/load/can_load/remove/remove_many/list/cleanup/pack/reopen) the file store '
+      '(with/without compress_numpy, packed or not), the dict store (with/without backing file) and the redis store return what a finite map '
+      'returns and load = last write; list is exact and duplicate-free; remove is truthful; pack and reopen are the identity; the P/N/empty/raw-npy '
+      'framing decodes to what was encoded given the byte codecs.  Tie: random operation sequences on 6 real store configurations, every '
+      'observed result and the final packed/raw/encoded split compared with the model in coqc.',
+      'Kernel + vm_compute; pickle/np.save/zlib/base64 are hypotheses of the framing theorems (sampled every run); fake redis server; '
+      'value identity = content+type/dtype/shape as canonicalised by the harness; one store object at a time.',
+      'DESIGN.md sec. 3 C06')
+claim('C10', 'Coq proof (set equations of cleanup per mode and backend for ANY store content) + differential evaluation of the model in coqc against the real `jug cleanup` command',
+      'Theorems (Props/C10.v): for every store content (active and foreign results, packed/unpacked/both, held and failed locks, temp files) '
+      'and every active set: default and --keep-locks leave exactly results /\\ active; --keep-locks leaves all locks; --locks-only removes all '
+      'locks and nothing else; --failed-only removes exactly the failed locks; on file (packed or not), dict and redis.  Tie: generated '
+      'store contents x 4 modes x 4 backends through the real CleanupCommand; list()/listlocks()/failed marks compared with the model.',
+      'Kernel + vm_compute; model of os.walk filtering/pack pruning hand-written and tied by differential cases; fake redis; '
+      'no concurrent modification during the command.',
+      'DESIGN.md sec. 3 C10')
+claim('C19', 'Coq proof (invariants of the keep-alive state machine over all event sequences, parametric in the timing constants) instantiated on constants the translator extracts from the source + differential evaluation of the model against the real monitor loop on a simulated clock',
+      'Theorems (Props/C19.v): if rounds*(period+drift)+startup < expiry a live holder\'s lock is never reported failed, for every task duration; a '
+      'dead holder\'s lock is no longer refreshed after one round and is reported failed from death+round+expiry on, after which cleanup '
+      '--failed-only removes it and get() succeeds; the monitor ends on release/fail, on holder death and on lock removal.  The side '
+      'condition is proved for the constants regenerated from file_keepalive_monitor.py / file_keepalive_based_lock.py on every run.',
+      'Kernel + vm_compute; translator harness/translate_c19.py (fail-closed ast extractor); integer-second shared clock, no PID reuse, '
+      'bounded per-round drift and start-up delay are explicit premises; real time/process liveness is outside the model.',
+      'DESIGN.md sec. 3 C19')
+claim('C20', 'Coq proof (layered lookup = cmdline ?? coerce(config) ?? default for every option table meeting a decidable side condition) + side condition decided on the option table the translator regenerates from the source + differential evaluation against jug.options.parse',
+      'Theorems (Props/C20.v): for every option table whose options are all None when absent from the command line, every command line, '
+      'configuration file and default layer: lookup k = cmdline k ?? coerce(default k)(config k) ?? default k; the side condition holds for the '
+      'table generated from options.py and subcommands/*.py (finite, forallb by vm_compute); the jugfile is argv[0] followed by the extra '
+      'arguments; the jugdir expansion depends on (jugfile, date) only, for every subcommand.  Tie: real options.parse on generated command '
+      'lines x configuration files for every subcommand.',
+      'Kernel + vm_compute; translator harness/translate_c20.py (fail-closed ast extractor of add_argument/parse_defaults); argparse itself and '
+      'option-name abbreviations are outside the model; printable-ASCII strings.',
+      'DESIGN.md sec. 3 C20')
+
 ALL = ['C%02d' % i for i in range(1, 21)]
 
 
